@@ -376,7 +376,7 @@ pub fn workload_strategy() -> impl Strategy<Value = Workload> {
 }
 
 pub fn run(ctx: &Ctx) {
-    ctx.run_prop_opts("single-thread", ctx.cases(60, 4000), 48, workload_strategy(), |w| check_workload(ctx, w));
+    ctx.run_prop_opts("single-thread", ctx.cases(60, 2000), 48, workload_strategy(), |w| check_workload(ctx, w));
     ctx.extra("max_ratio_peakheld_to_round_total_plus_1MiB_milli", serde_json::json!(MAX_RATIO_MILLI.with(|m| m.get())));
     crate::galloc_driver::run(ctx);
 }
